@@ -624,7 +624,7 @@ def stream_include(ctx, corpus_cases):
                                'outcome, statementCount; non-trivial = at least one fetch request was made')
     cases = [('corpus', c) for c in corpus_cases]
     rng = ctx.rng('include')
-    for _ in range(ctx.scale(1500, 30000)):
+    for _ in range(ctx.scale(4000, 60000)):
         cases.append(('random', TreeGen(rng).build()))
     resps = ctx.driver.batch([model_request(c) for _, c in cases])
     for (origin, case), resp in zip(cases, resps):
@@ -665,7 +665,7 @@ def cli_tree(rng, tmp, relative_invocation):
         while True:
             ref, system = orig(ancestors)
             if system:
-                return rng.choice(['args.bare', 'unittest.bare', 'pager.bare', 'nosuch.bare']), True
+                return rng.choice(['args.bare', 'unittest.bare', 'pager.bare'] * 4 + ['nosuch.bare']), True
             if not spec_is_url(ref) and not ref.startswith('/') and "'" not in ref and ref.strip() == ref and ref != '' and '../..' not in ref:
                 return ref, False
     g.make_ref = make_ref
@@ -743,7 +743,7 @@ def stream_cli(ctx):
 
         # random trees over real files
         cases = []
-        for i in range(ctx.scale(40, 400)):
+        for i in range(ctx.scale(100, 800)):
             sub = os.path.join(tmp, f't{i}')
             os.makedirs(sub)
             case = cli_tree(rng, sub, relative_invocation=(i % 3 == 0))
